@@ -239,7 +239,7 @@ def run(pid, tier, seed):
                        "on a real threshold.Scheme (real RBC, scripted synchroniser and backend) over identity, offset, permuted and "
                        "replicated membership maps; non-trivial = a backend was initialised or traffic reached an instance; distinct by history")
     chk.cov["input_distribution"] = dict(ops=dict(collections.Counter(st["op"] for st in steps)),
-                                         api=dict(collections.Counter(r for sc in scen for r in sc["steps"][-1]["api"].values())) if scen else {},
+                                         api=dict(collections.Counter(r for sc in scen if sc["steps"] for r in sc["steps"][-1]["api"].values())),
                                          reached=sum(len(st["reached"]) for st in steps), inits=sum(len(st["inits"]) for st in steps))
     chk.cov["traces_validated_against_impl"] = len(scen)
     if scen:
